@@ -44,6 +44,7 @@ type Frame struct {
 	dregs  [][]Value // evaluated defer args
 	loops  map[*ssa.BasicBlock]bool // loop headers already cut on this path
 	ct     *Contract                // contract being verified when this is the top frame
+	unroll int                      // loop header visits on this path (unrolling guard)
 }
 
 type envEntry struct {
@@ -52,7 +53,7 @@ type envEntry struct {
 }
 
 func (f *Frame) clone() *Frame {
-	n := &Frame{fn: f.fn, regs: make(map[ssa.Value]Value, len(f.regs)+8), env: make(map[string]envEntry, len(f.env)), stopAt: f.stopAt, depth: f.depth, ct: f.ct}
+	n := &Frame{fn: f.fn, regs: make(map[ssa.Value]Value, len(f.regs)+8), env: make(map[string]envEntry, len(f.env)), stopAt: f.stopAt, depth: f.depth, ct: f.ct, unroll: f.unroll}
 	for k, v := range f.regs {
 		n.regs[k] = v
 	}
@@ -148,6 +149,13 @@ func (x *Exec) constValue(c *ssa.Const) Value {
 			return mkRat(r, SInt)
 		case b.Info()&types.IsFloat != 0:
 			r := constRat(c.Value)
+			if b.Kind() == types.UntypedFloat {
+				// every use in code converts the constant to float64 first
+				if f, _ := constant.Float64Val(c.Value); !math.IsInf(f, 0) {
+					r = new(big.Rat)
+					r.SetFloat64(f)
+				}
+			}
 			if pt := piMultiple(r); pt != nil {
 				return pt
 			}
@@ -363,10 +371,24 @@ func (x *Exec) storeTo(st *State, p *Ptr, nv Value) {
 	} else {
 		st.store[p.cell] = setPath(v, p.path, nv)
 	}
-	st.version++
+	st.wlog = append(st.wlog, p.cell.id)
 	if st.written != nil {
 		st.written[p.cell] = true
 	}
+}
+
+// pureSince: did the execution from pre to post leave everything that existed
+// before mark (cell id watermark) untouched and produce no other effect?
+func pureSince(pre, post *State, mark int) bool {
+	if post.version != pre.version || len(post.wlog) < len(pre.wlog) {
+		return false
+	}
+	for _, id := range post.wlog[len(pre.wlog):] {
+		if id <= mark {
+			return false
+		}
+	}
+	return true
 }
 
 // symbolic arrays: element at symbolic index; leaves are UF selects.
@@ -1034,8 +1056,9 @@ func (x *Exec) runInstrs(st *State, fr *Frame, b *ssa.BasicBlock, idx int, prev 
 			fr.defers = nil
 			fr.dregs = nil
 		case *ssa.Call:
+			mark := cellCtr
 			outs := x.doCall(st, fr, in.Common())
-			outs = x.maybeMergeOuts(st, outs)
+			outs = x.maybeMergeOuts(st, outs, mark)
 			if len(outs) == 1 && outs[0].kind == oRet {
 				st = outs[0].st
 				fr.regs[in] = resultValue(in.Type(), outs[0].vals)
@@ -1181,7 +1204,7 @@ func (x *Exec) posTag(p token.Pos, fr *Frame) string {
 // merging
 
 // maybeMergeOuts merges several pure normal outcomes into one with ite values.
-func (x *Exec) maybeMergeOuts(st *State, outs []Out) []Out {
+func (x *Exec) maybeMergeOuts(st *State, outs []Out, mark int) []Out {
 	if len(outs) <= 1 {
 		return outs
 	}
@@ -1193,7 +1216,7 @@ func (x *Exec) maybeMergeOuts(st *State, outs []Out) []Out {
 		return outs
 	}
 	for _, o := range outs {
-		if o.kind != oRet || o.st.version != st.version {
+		if o.kind != oRet || !pureSince(st, o.st, mark) {
 			return outs
 		}
 		if len(o.st.pc) < len(st.pc) {
@@ -1347,6 +1370,7 @@ func (x *Exec) tryMergeRegion(st *State, fr *Frame, b *ssa.BasicBlock, c *Term) 
 	}
 	saveObls := len(x.obls)
 	savePaths := x.paths
+	mark := cellCtr
 	var outs []Out
 	ok := func() (ok bool) {
 		defer func() {
@@ -1386,7 +1410,7 @@ func (x *Exec) tryMergeRegion(st *State, fr *Frame, b *ssa.BasicBlock, c *Term) 
 		return reject()
 	}
 	for _, o := range outs {
-		if o.kind != oStopped || o.st.version != st.version || o.fr.stopAt != j {
+		if o.kind != oStopped || !pureSince(st, o.st, mark) || o.fr.stopAt != j {
 			return reject()
 		}
 	}
